@@ -2,6 +2,7 @@
 (the universal "never raises for any request" is not decidable by per-function contracts and is not claimed)."""
 from pyvc.api import contract, cls, ghost, lemma
 from pyvc import tracelib as T
+from . import c20_conditional  # noqa  (class Response)
 E_ = 'mapproxy.exception:'
 
 
@@ -222,3 +223,82 @@ contract(E_ + 'RequestError.render', props=['C18', 'C20'], types=dict(self='opaq
          opaque_spec={'render': {'pure': True}, 'Response': {'pure': True}, 'cache_headers': {'pure': True}},
          opaque=['Response'],
          trace=[_error_answer])
+
+
+# ---- Response.__call__: a complete answer - status and headers sent once, length declared for the body that is sent ----------------
+def _response_sent(ex, st, post, result):
+    import z3
+    from pyvc.values import eq, VInt
+    sr = [(i, e) for i, e in T.evs(st, 'start_response')]
+    ok = len(sr) == 1 and len(sr[0][1].args) == 2 and sr[0][0] == len(st.trace) - 1
+    yield ('status_and_headers_sent_once_at_the_end', z3.BoolVal(bool(ok)),
+           'start_response(status, headers) is called exactly once, after the body and its length are settled')
+    seeks = [(i, e) for i, e in T.evs(st, 'seek')]
+    tells = [(i, e) for i, e in T.evs(st, 'tell')]
+    g = z3.BoolVal(len(tells) <= 1)
+    if tells:
+        i_t = tells[0][0]
+        before = [e for i, e in seeks if i < i_t]
+        after = [e for i, e in seeks if i > i_t]
+        okk = len(before) == 1 and len(after) == 1 and len(before[0].args) == 2 and before[0].args[0].conc() == 0 and before[0].args[1].conc() == 2 \
+            and len(after[0].args) == 1 and after[0].args[0].conc() == 0
+        g = z3.And(g, z3.BoolVal(bool(okk)))
+        h = st.heap[post.env['self'].ref]['headers']
+    else:
+        g = z3.And(g, z3.BoolVal(not seeks))
+    if tells and bool(okk):
+        sp = st.fork()
+        sp.spec = True
+        sp.env = dict(st.env, n=tells[0][1].result)
+        try:
+            g = z3.And(g, ex.truth(sp, ex.ev1(sp, ex.reg.parse_spec("self.headers['Content-length'] == str(n)"))))
+        except Exception as e_:      # noqa
+            g = z3.BoolVal(False)
+    yield ('file_body_measured_and_rewound', g,
+           'a seekable file body is measured (seek to EOF, tell), Content-length is set to that position, and the body is rewound to '
+           'the start before it is handed to the server')
+
+
+def _response_body_kind(ex, st, post, result):
+    import z3
+    from pyvc.values import ObjSort, VSeq, VStr, eq
+    sr = [e for i, e in T.evs(st, 'start_response')]
+    stt = [e for i, e in T.evs(st, 'status', 'Response.status')]
+    fh = [e for i, e in T.evs(st, 'fixed_headers', 'Response.fixed_headers')]
+    ok = len(sr) == 1 and len(fh) == 1 and len(sr[0].args) == 2 and sr[0].args[1] is fh[0].result
+    g0 = z3.BoolVal(bool(ok))
+    if ok:
+        g0 = z3.And(g0, eq(sr[0].args[0], st.heap[post.env['self'].ref]['_status']))
+    yield ('sent_status_and_headers_are_its_own', g0, 'start_response(self.status, self.fixed_headers), in this order')
+    wrap = [e for e in st.trace if 'file_wrapper' in e.name]
+    for e in wrap:
+        yield ('file_wrapper_gets_the_body', z3.BoolVal(len(e.args) == 2 and result is e.result) if not hasattr(e.args[0], 't') else
+               z3.And(z3.BoolVal(len(e.args) == 2 and result is e.result), e.args[0].t == post.old.heap[post.env['self'].ref]['response'].t),
+               "with a server file wrapper the answer is environ['wsgi.file_wrapper'](the body, block_size)")
+    r0 = post.old.heap[post.env['self'].ref]['response'] if getattr(post, 'old', None) is not None else None
+    if r0 is None or not hasattr(r0, 't'):
+        return
+    ha = lambda n: z3.Function('opaque_hasattr_' + n, ObjSort, z3.BoolSort())(r0.t)     # noqa
+    readable = ha('read')
+    tells = [e for i, e in T.evs(st, 'tell')]
+    fw = [e for i, e in T.evs(st, 'getitem') if False]
+    may_seek = z3.Or(z3.Not(ha('ok_to_seek')), ex.truth(st, ex.opaque_field(post.old, r0, 'ok_to_seek')))
+    g = z3.BoolVal(bool(tells)) == z3.And(readable, may_seek, ha('seek'), ha('tell'))
+    yield ('length_measured_exactly_for_seekable_files', g,
+           'the body is measured exactly when it is a file object (has read) that may be seeked (no ok_to_seek veto) and has seek and tell')
+    enc = [e for i, e in T.evs(st, 'encode')]
+    g2 = z3.Implies(readable, z3.BoolVal(not enc))
+    is_str = z3.Function('opaque_isinstance_str', ObjSort, z3.BoolSort())(r0.t)
+    truthy = ex.truth(post.old, r0)
+    yield ('text_body_is_encoded', z3.BoolVal(len(enc) == 1) == z3.And(z3.Not(readable), truthy, is_str),
+           'exactly a non-empty text body is encoded (with the charset of the response) before it is sent')
+    yield ('file_body_is_streamed_not_converted', g2, 'a file body is handed over as a stream (file wrapper or block iterator), never encoded')
+
+
+contract('mapproxy.response:Response.__call__', props=['C18'],
+         types=dict(environ='opaque', start_response='opaque'), returns='opaque', default_callee='opaque',
+         opaque_spec={'seek': {'pure': True}, 'tell': {'returns': 'int', 'pure': True}, 'start_response': {'pure': True},
+                      'encode': {'pure': True}, 'iter': {'pure': True}, 'fixed_headers': {'pure': True}, 'status': {'pure': True}},
+         opaque=['fixed_headers', 'status'],
+         opaque_fields={'ok_to_seek': 'opaque'}, stable_fields=['ok_to_seek'],
+         trace=[_response_sent, _response_body_kind])
